@@ -609,6 +609,13 @@ class Executor:
             await self._run_hash_job(hash_job)
         finally:
             self.reporter.job_stopped(hash_job.job_i)
+            # However the job ended, nobody may be left waiting for it.
+            # When the task running it is cancelled, e.g. because the connection of
+            # the requesting step broke, the future is still pending and the job is still
+            # registered as in flight: every later request for the same path would be handed
+            # this job and wait for ever. Cancelling the future retires the job.
+            if not hash_job.future.done():
+                hash_job.future.cancel()
 
     async def _run_hash_job(self, hash_job: HashJob) -> None:
         """Compute one file hash in a thread, apply it to the workflow, resolve the future.
